@@ -48,6 +48,9 @@ type Case struct {
 	// EOL: line-end class of the case (0 LF, 1 CR LF, 2 mixed): what the line ends of the generated
 	// multi-line literals are, and what the text environments of the printings mostly are; informational
 	EOL int `json:"eol,omitempty"`
+	// Chain: the case is additionally evaluated against a CHAIN of evaluation contexts over which the
+	// variables and functions of the environment are distributed (chain_test.go); nil = flat context only
+	Chain *Chain `json:"chain,omitempty"`
 }
 
 // genText draws the text environment of one printing (internal/exprgen/textenv.go): the default
@@ -180,6 +183,9 @@ func gen(t *rapid.T, template bool) Case {
 			c.Styles[i].ItemNL = true
 		}
 	}
+	// CONTEXT CHAIN: half of the cases are evaluated a second time with the same variables and
+	// functions distributed over a chain of 2-4 nested evaluation contexts (chain_test.go)
+	c.Chain = genChain(t)
 	return c
 }
 
@@ -206,11 +212,18 @@ func diagSummary(d hcl.Diagnostics) string {
 }
 
 func buildCtx(c Case, st x.Style) (*hcl.EvalContext, map[string]*ufn, *core.Violation) {
+	ctx, ufs, _, v := buildCtxBody(c, st)
+	return ctx, ufs, v
+}
+
+// buildCtxBody: buildCtx, and the parsed body of the function-definition file (nil without functions)
+func buildCtxBody(c Case, st x.Style) (*hcl.EvalContext, map[string]*ufn, hcl.Body, *core.Violation) {
+	var fbody hcl.Body
 	vars := map[string]cty.Value{}
 	for _, v := range c.Vars {
 		cv, err := v.V.Cty()
 		if err != nil {
-			return nil, nil, core.V("harness|bad-env-value", "%v", err)
+			return nil, nil, nil, core.V("harness|bad-env-value", "%v", err)
 		}
 		vars[v.Name] = cv
 	}
@@ -223,11 +236,12 @@ func buildCtx(c Case, st x.Style) (*hcl.EvalContext, map[string]*ufn, *core.Viol
 		src := x.PrintFuncs(c.Funcs, st)
 		f, diags := hclsyntax.ParseConfig([]byte(src), "funcs.hcl", hcl.InitialPos)
 		if diags.HasErrors() {
-			return nil, nil, core.V("parse|function-block|"+diagSummary(diags), "function definitions do not parse: %s\n%s", diags.Error(), src)
+			return nil, nil, nil, core.V("parse|function-block|"+diagSummary(diags), "function definitions do not parse: %s\n%s", diags.Error(), src)
 		}
+		fbody = f.Body
 		funcs, _, diags := userfunc.DecodeUserFunctions(f.Body, "function", func() *hcl.EvalContext { return ctx })
 		if diags.HasErrors() {
-			return nil, nil, core.V("userfunc|decode|"+diagSummary(diags), "DecodeUserFunctions: %s\n%s", diags.Error(), src)
+			return nil, nil, nil, core.V("userfunc|decode|"+diagSummary(diags), "DecodeUserFunctions: %s\n%s", diags.Error(), src)
 		}
 		for k, fn := range funcs {
 			ctx.Functions[k] = fn
@@ -250,7 +264,7 @@ func buildCtx(c Case, st x.Style) (*hcl.EvalContext, map[string]*ufn, *core.Viol
 			}
 		}
 	}
-	return ctx, ufs, nil
+	return ctx, ufs, fbody, nil
 }
 
 func run(c Case, i int, ctx *hcl.EvalContext) (outcome, *core.Violation) {
@@ -317,7 +331,7 @@ func checkOnce(c Case) *core.Violation {
 		last.ref = "value"
 	}
 	// the function definitions are spelled with the last (random) style
-	ctx, ufs, v := buildCtx(c, c.Styles[len(c.Styles)-1])
+	ctx, ufs, fbody, v := buildCtxBody(c, c.Styles[len(c.Styles)-1])
 	if v != nil {
 		return v
 	}
@@ -339,7 +353,12 @@ func checkOnce(c Case) *core.Violation {
 	if v := checkVariables(c, outs, ufs); v != nil {
 		return v
 	}
-	if mentionsUnknownVar(c) {
+	unkInvolved := mentionsUnknownVar(c)
+	// (5) the same variables and functions distributed over a chain of nested contexts give the same result
+	if v := checkChain(c, outs, ctx, fbody, unkInvolved); v != nil {
+		return v
+	}
+	if unkInvolved {
 		// An unknown value flows (or may flow) through the evaluation.  cty compares the
 		// attributes of two objects in Go map order and stops at the first unknown or
 		// unequal one, so {a = 1, b = unknown} == {a = 2, b = 3} is false or unknown from
@@ -409,7 +428,7 @@ const nondetSig = "nondeterministic|one-text-evaluates-differently-from-run-to-r
 
 func check(c Case) *core.Violation {
 	v := checkOnce(c)
-	if v == nil || !(strings.HasPrefix(v.Sig, "meta|") || strings.HasPrefix(v.Sig, "scope|") || strings.HasPrefix(v.Sig, "diff|")) {
+	if v == nil || !(strings.HasPrefix(v.Sig, "meta|") || strings.HasPrefix(v.Sig, "scope|") || strings.HasPrefix(v.Sig, "diff|") || strings.HasPrefix(v.Sig, "chain|")) {
 		return v
 	}
 	ctx, _, bv := buildCtx(c, c.Styles[len(c.Styles)-1])
@@ -719,6 +738,7 @@ func classify(c Case) core.Class {
 		cl.Labels = append(cl.Labels, l)
 	}
 	countText(tl)
+	cl.Labels = append(cl.Labels, chainLabels(c)...)
 	sl := scopeLabels(c)
 	cl.Labels = append(cl.Labels, sl...)
 	countScopeLabels(c, sl)
@@ -780,7 +800,7 @@ func faultClass(k string) string {
 	return k
 }
 
-const ruleCommon = "environment of 0-6 variables (numbers incl. dyadic fractions and 2^40, strings incl. numeric/boolean-looking and non-ASCII, bools, tuples, objects, cty lists / maps / sets of primitives, of objects, nested and empty, nulls of every type, unknown values), 0-3 functions defined through ext/userfunc blocks (may call earlier ones, variadic, closures over the variables) plus tryfunc try/can; a typed tree of depth<=6 over literals, variables, unary/binary arithmetic, comparison, equality across types, logic, conditional (same-typed, null, string-unification branches), tuple/object constructors (keys as bare literal name incl. true/false/null/if/for, quoted literal, number, operator expression, (k), \"${k}\", \"${k}x\", \"x${k}\", \"${k.a}\", heredoc-able \"${k}\\n\" with k a variable / for iterator / undefined name / null / keyword / non-primitive; selector variables named like one field and valued like another), index (literal, computed, string key, by variable obj[b] vs obj.b), attribute, attribute-only and full splat (incl. traversal inside the splat vs applied to its result, splat of null / single value / list), for-expressions (tuple and object form, key+value variables, if, grouping), calls (incl. argument expansion), templates (literal, ${}, %{if/else}, %{for}, ~ strip markers, passthrough of a single interpolation); with probability 0.35 one node is replaced by an ill-typed variant (16 kinds: ill-typed operator, undefined variable/function, missing attribute, index out of range / negative / fractional / into a primitive, duplicate key without grouping, null or non-primitive in a template, null operand, wrong arity, for over a primitive, non-boolean condition, bad expansion); about 0.4% of the expression roots are a fixed-shape probe (for-expression whose if clause holds a conditional that unifies only for the real key type) that meets the known early-condition-check finding. Every tree is printed 2-3 times: canonical minimal spelling and random spellings (redundant parentheses, spacing, tabs, newlines and # // /* */ comments where insignificant, ':' vs '=' and newline vs comma in object constructors, trailing commas, x.0 vs x[0], .* vs [*], number spellings 1e3 / 2.50 / 25e-1, \\xHH byte escapes (the fork's own escape), quoted vs heredoc vs flush heredoc with extra indentation). Oracle: all printings RawEqual and same error-ness; reference evaluator (exact rationals) says value => no error diagnostic and same value+type; says error => error diagnostic; trees leaving the documented semantics (README.md) are checked metamorphically only. Non-trivial: an operator with an unparenthesised operand of another precedence level in the minimal spelling, or a for-expression / splat / template directive; distinct = (feature set: operators, conditional, access/splat, for, call, template | depth bucket | fault kind | set of printing modes)" + ruleScope + ruleScale + ruleText
+const ruleCommon = "environment of 0-6 variables (numbers incl. dyadic fractions and 2^40, strings incl. numeric/boolean-looking and non-ASCII, bools, tuples, objects, cty lists / maps / sets of primitives, of objects, nested and empty, nulls of every type, unknown values), 0-3 functions defined through ext/userfunc blocks (may call earlier ones, variadic, closures over the variables) plus tryfunc try/can; a typed tree of depth<=6 over literals, variables, unary/binary arithmetic, comparison, equality across types, logic, conditional (same-typed, null, string-unification branches), tuple/object constructors (keys as bare literal name incl. true/false/null/if/for, quoted literal, number, operator expression, (k), \"${k}\", \"${k}x\", \"x${k}\", \"${k.a}\", heredoc-able \"${k}\\n\" with k a variable / for iterator / undefined name / null / keyword / non-primitive; selector variables named like one field and valued like another), index (literal, computed, string key, by variable obj[b] vs obj.b), attribute, attribute-only and full splat (incl. traversal inside the splat vs applied to its result, splat of null / single value / list), for-expressions (tuple and object form, key+value variables, if, grouping), calls (incl. argument expansion), templates (literal, ${}, %{if/else}, %{for}, ~ strip markers, passthrough of a single interpolation); with probability 0.35 one node is replaced by an ill-typed variant (16 kinds: ill-typed operator, undefined variable/function, missing attribute, index out of range / negative / fractional / into a primitive, duplicate key without grouping, null or non-primitive in a template, null operand, wrong arity, for over a primitive, non-boolean condition, bad expansion); about 0.4% of the expression roots are a fixed-shape probe (for-expression whose if clause holds a conditional that unifies only for the real key type) that meets the known early-condition-check finding. Every tree is printed 2-3 times: canonical minimal spelling and random spellings (redundant parentheses, spacing, tabs, newlines and # // /* */ comments where insignificant, ':' vs '=' and newline vs comma in object constructors, trailing commas, x.0 vs x[0], .* vs [*], number spellings 1e3 / 2.50 / 25e-1, \\xHH byte escapes (the fork's own escape), quoted vs heredoc vs flush heredoc with extra indentation). Oracle: all printings RawEqual and same error-ness; reference evaluator (exact rationals) says value => no error diagnostic and same value+type; says error => error diagnostic; trees leaving the documented semantics (README.md) are checked metamorphically only. Non-trivial: an operator with an unparenthesised operand of another precedence level in the minimal spelling, or a for-expression / splat / template directive; distinct = (feature set: operators, conditional, access/splat, for, call, template | depth bucket | fault kind | set of printing modes)" + ruleScope + ruleScale + ruleText + ruleChain
 
 // name binding (scope_test.go, internal/exprgen/scope.go, gen_scope.go)
 const ruleScope = ". NAME BINDING: the names of iteration variables (for-expressions and %{for} directives) are drawn from a small pool shared with the environment (30% of the environment names come from x/k/v/i), from the visible environment variables / function parameters (the loop SHADOWS them; half of the time one whose value is unknown) and from the variables of the enclosing loops (the inner loop RE-BINDS the name: about 2 in 3 trees with nested loops), with uses of the name before, inside and after the inner loop in one clause (natural in tuple / object constructors, operators and template bodies, plus a 'sandwich' constructor [use, inner loop binding the same name - often `for x in x` -, use][i] / {p = use, q = loop, r = use}.r placed in any clause of a loop); the environment also holds cty.UnknownVal of every generated type, cty.DynamicVal and known tuples / objects / lists / maps that CONTAIN an unknown at some depth (about 1 variable in 4), also under names that loops shadow; try() / can() stand anywhere in the tree and additionally wrap the whole root (2 in 10: try(root), try(root, fallback), can(root)). Extra oracles: (3) the root names of hclsyntax.Variables(expr) of every parsed printing and of every user-function body equal the free variables computed by the harness's own scope-aware walk over the generated tree; (4) when no free variable of the tree or of a function body holds an unknown, the tree is evaluated again in an environment in which every name it cannot see (environment variables that are not free, names bound only by its loops) is replaced by cty.DynamicVal / an unknown string / an unknown list / an object or tuple containing an unknown / a known string / nothing, and error-ness and value must be unchanged; the reference evaluator and the 'unknown involved' exemption are scope-aware (only FREE names that hold unknowns exempt a case; try/can defer only for free names), so a shadowed unknown is under the full differential oracle. Labels scope:*, call:*, unknown:*, conj:* (conjunctions try/can x re-bound-name-used-after-the-inner-loop x environment-holds-that-name-unknown); their rates per 10000 cases are recorded as the extra key name_binding_classes_per_10000_cases because the histogram keeps the 60 most frequent labels only"
